@@ -265,5 +265,5 @@ func concChild(r *vf.Run) {
 	if !r.RaceBuild {
 		r.Inconclusive("conc child is not a race build")
 	}
-	concRun(r, r.N(20000, 100000), "race")
+	concRun(r, r.N(10000, 100000), "race")
 }
